@@ -506,6 +506,44 @@ class SpaceImpl:
         return f"ok size={size}" + "".join(
             f" | {mk} {z} n={len(mem)}" + "".join(" " + ",".join(t) for t in mem) for mk, z, mem in groups)
 
+    def frame(self):
+        """the axis limits draw_space asks for (the arguments of its last set_xlim / set_ylim: what matplotlib makes of
+        limits without extent is matplotlib's), in the protocol's units"""
+        m = L()
+        snap = self.snapshot()
+        ax = m["Figure"]().add_subplot()
+        asked = {}
+        for name in ("set_xlim", "set_ylim"):
+            orig = getattr(ax, name)
+
+            def rec(*a, _orig=orig, _name=name, **k):
+                import sys
+
+                # matplotlib calls set_xlim itself too (axvline, autoscaling): only mesa's own requests count
+                if sys._getframe(1).f_code.co_filename.endswith("mpl_space_drawing.py"):
+                    asked[_name] = (a, k)
+                return _orig(*a, **k)
+            setattr(ax, name, rec)
+        with warnings.catch_warnings():
+            warnings.simplefilter("ignore")
+            try:
+                m["draw_space"](self.space, self.portrayal, ax=ax)
+            except Exception as e:
+                self.trace.append(("frame", snap, None, exc_tok(e)))
+                return exc_tok(e)
+        if self.fam in NETS:
+            return "ok -"
+        lims = []
+        for name, unit, off in (("set_xlim", SQ3 / 2 if self.fam in HEXES else 1.0, self.off[0]),
+                                ("set_ylim", 0.5 if self.fam in HEXES else 1.0, self.off[1])):
+            a, k = asked.get(name, ((), {}))
+            if len(a) != 2 or k:
+                lims.append(("?", "?"))
+                continue
+            lims.append(tuple(self.frac_tok((float(v) - off) / unit, 40) for v in a))
+        self.trace.append(("frame", snap, lims, None))
+        return f"ok x={lims[0][0]}..{lims[0][1]} y={lims[1][0]}..{lims[1][1]}"
+
     def sdefault(self):
         """the marker size of agents portrayed by {}: all agents drawn with an empty portrayal"""
         m = L()
@@ -815,6 +853,8 @@ class SpaceImpl:
             return self.sdefault()
         if k == "drawnet":
             return self.draw_net(w[1:])
+        if k == "frame":
+            return self.frame()
         if k == "drawk":
             return self.draw(kw=dict(t.split("=") for t in w[1:]))
         if k == "altair":
@@ -1466,6 +1506,8 @@ def gen_space(R, tier):
         k = R.random()
         if fam in NETS and k < 0.22:
             return gen_drawnet()
+        if fam not in NETS and k < 0.06:
+            return "frame"
         if k < 0.28:
             return "collect"
         if k < 0.36:
@@ -2113,6 +2155,28 @@ def oracle(sc, obs):
             got = sorted((t[0], t[1], t[2], mk, z, t[3], t[4], t[5]) for mk, z, mem in groups for t in mem)
             if got != want:
                 bad.append(f"drawnet-marker-at-layout-position: drawn {got} but the agents and the layout {layout} demand {want}")
+        elif kind == "frame":
+            _, snap, lims, err = ev
+            if lims is None:
+                if not (draw_refuses and not snap):
+                    bad.append(f"frame-raised: draw_space raised {err} with {len(snap)} agents in the space")
+                continue
+            from fractions import Fraction
+
+            # every agent is drawn inside the limits (on them at most where the space has no extent: Voronoi centroids in line)
+            try:
+                (x0, x1), (y0, y1) = [tuple(Fraction(t) for t in lim) for lim in lims]
+            except ValueError:
+                bad.append(f"frame-limits: limits {lims} are not what draw_space is expected to ask for")
+                continue
+            for _, loc, _d in snap:
+                px, py = (2 * loc[0] + ((loc[1] - 1) % 2), 3 * loc[1]) if fam in HEXES else loc
+                strict = fam != "vor"
+                okx = x0 < px < x1 if (strict or x0 != x1) else x0 <= px <= x1
+                oky = y0 < py < y1 if (strict or y0 != y1) else y0 <= py <= y1
+                if not (okx and oky):
+                    bad.append(f"frame-shows-every-agent: the agent at {loc} is drawn at ({px}, {py}), outside the limits {lims}")
+                    break
         elif kind == "sdefault":
             _, n, tok = ev
             # the default size is a positive finite number whenever there is an agent to draw (V12)
